@@ -11,9 +11,14 @@ PROP = 'C01'
 LEVEL = 'exploration'
 RULE = ('random programs of 1-6 chained public operations (copy, slice, apply,'
         ' stack, subset, rename var/dim, insert/remove/reorder dimension, '
-        'mask, eval, arithmetic, interpolate) over generated core files '
+        'mask, eval, arithmetic, interpolate; every third core program also '
+        'draws from the functional forms slice_dim, reduce_dim, convolve_dim, '
+        'getvarpnc, removesingleton, pncrename, splitdim, pncexpr, merge, '
+        'stack_files; pointwise selections with 2-4 index lists; renames '
+        'with copyall=False and onto existing names) over generated core files '
         '(differing dimension subsets, masks, scalars, length-1 and unlimited '
-        'dimensions, coordinate variables) and IOAPI files; the well-formedness'
+        'dimensions, coordinate variables) and IOAPI files (from_arrays, '
+        'GRIDDESC with and without CF coordinates); the well-formedness'
         ' oracle runs on the real result of every step and on every '
         'constructor. evaluations = operation returns/raises monitored; a step '
         'is non-trivial when the operation returned a file with >= 1 variable;'
